@@ -44,7 +44,11 @@ STRUCTS = {
     # non-empty measurement sets none of whose queries can express the overall count (partial cells, differences)
     'undetermined': [('A', 'B'), ('C', 'D')],
     'undetermined-loop': [('A', 'B'), ('B', 'C'), ('C', 'A')],
+    'chain-zeros': [('A', 'B'), ('B', 'C'), ('C', 'D')],
+    'pair-zeros': [('A', 'B'), ('B', 'C')],
 }
+# structural zeros that rule out a whole attribute value (validity clauses only: the uniform table is not feasible then)
+ZEROS_FOR = {'chain-zeros': {('A', 'B'): [(0, 0), (0, 1), (0, 2)]}, 'pair-zeros': {('B',): [(1,)]}}
 KINDS_FOR = {'undetermined': ['partial', 'diff'], 'undetermined-loop': ['diff', 'partial', 'diff']}
 DISJOINT = ['single', 'disjoint-pair', 'disjoint-singles-pair', 'duplicated', 'disjoint-dup']
 ITERS = [1, 2, 3, 5, 20, 60, 200, 600]
@@ -62,6 +66,9 @@ def jobs(tier, seed):
     its = ITERS if tier == 'thorough' else [1, 2, 3, 5, 20, 60]
     for sname in STRUCTS:
         for orc in ORACLES:
+            if sname in ZEROS_FOR:
+                out.append({'s': sname, 'oracle': orc, 'noise': 'low', 'iters': [20, 60], 'totals': ['given'], 'seed': seed})
+                continue
             if sname in KINDS_FOR:
                 out.append({'s': sname, 'oracle': orc, 'noise': 'low', 'iters': [1, 5, 60], 'totals': ['none', 'given'], 'seed': seed})
                 continue
@@ -86,8 +93,10 @@ def run_one(sname, orc, noise, iters, totmode, seed, T0=40.0):
     si = list(STRUCTS).index(sname)
     prob = M.Problem(ATTRS, SIZES, struct, si, 'pos', seed, total=T0, noise_mult=0.5 if noise == 'low' else 3.0,
                      kinds=KINDS_FOR.get(sname, ['dense', 'sparse', 'prefix', 'linop']))
-    eng = LocalInference(Domain(ATTRS, SIZES), iters=iters, marginal_oracle=orc)
-    ms = prob.fresh_measurements()
+    zeros = ZEROS_FOR.get(sname, {})
+    eng = LocalInference(Domain(ATTRS, SIZES), iters=iters, marginal_oracle=orc, **({'structural_zeros': {k: list(v) for k, v in zeros.items()}} if zeros else {}))
+    # every projection is a freshly built tuple object (equal cliques are never the same object)
+    ms = [(Q, y, s_, tuple(list(pr))) for (Q, y, s_, pr) in prob.fresh_measurements()]
     with M.quiet():
         model = eng.estimate(ms, total=T0 if totmode == 'given' else None)
     T = float(model.total)
@@ -119,7 +128,14 @@ def run_one(sname, orc, noise, iters, totmode, seed, T0=40.0):
     info = {'f': f, 'fu': fu}
     if fails:
         return struct, fails, info
-    if f > fu * (1 + 1e-9) + 1e-12:
+    for key_, cells_ in zeros.items():
+        for cl_, t_ in tables.items():
+            if set(key_) <= set(cl_):
+                m_ = np.asarray(t_.project(key_).values, dtype=float)
+                for c_ in cells_:
+                    if m_[tuple(c_)] > 1e-9 * T:
+                        fails.append(('mass-on-zero', 'table of %r gives mass %.4g to the structurally impossible cell %s=%r' % (cl_, m_[tuple(c_)], key_, tuple(c_))))
+    if not zeros and f > fu * (1 + 1e-9) + 1e-12:
         fails.append(('worse-than-uniform', 'loss %.8g of the returned tables is worse than the uniform start %.8g (ratio %.3g)' % (f, fu, f / fu if fu else float('inf'))))
     if orc == 'convex' and len(tables) >= 2:
         pf = float(model.primal_feasibility(model.marginals)) if hasattr(model, 'marginals') else 0.0
